@@ -358,11 +358,14 @@ func VerifH_Locality() {
 	}
 	verifrt.Assert("C20.others-unchanged", verifSameSig(kept, old))
 	switch kind {
-	case freshServer, freshTag, freshType, freshEnum:
+	case freshServer, freshTag, freshType:
 		verifrt.Assert("C20.one-new-entry", len(added) == 1)
+	case freshEnum:
+		// the enum line and its value tree (the array and its two items)
+		verifrt.Assert("C20.one-new-entry", len(added) == 4)
 	case freshTypeObj:
-		// the type line, its root node and its one property
-		verifrt.Assert("C20.one-new-entry", len(added) == 3)
+		// the type line, its root node, its one property and its example
+		verifrt.Assert("C20.one-new-entry", len(added) == 4)
 	case freshMacro:
 		verifrt.Assert("C20.unused-macro-adds-nothing", len(added) == 0)
 	case freshMethod:
